@@ -68,7 +68,7 @@ def reflow_record(m, src, words, hard, W, L, protected=None):
     lines = y.split('\n')
     if lines and lines[-1] == '':
         lines.pop()
-    facts, ok = line_facts(lines, words, hard, W)
+    facts, ok = line_facts(lines, words, hard, W) if W >= 0 else ([], True)
     return {'law': 'reflow', 'L': L, 'y': proj.asc(y), 'z': proj.asc(z), 'htmlX': proj.asc(htmlnorm.ws_normalize(html(m, src))),
             'htmlY': proj.asc(htmlnorm.ws_normalize(html(m, y))), 'lines': facts, 'wordsOk': 'yes' if ok else 'no',
             'protectedIn': [], 'protectedOut': []}
@@ -186,7 +186,7 @@ def run():
     verdicts, st = core.judge('LawsTrace', 'Trace.cfg', recs, ck.work, shard=4000)
     ck.add_tlc(st)
     for (d, L, r), v in zip(results, verdicts):
-        ck.count(('doc', d['src'], L) if len(d['words']) > 1 else None)
+        ck.count(('doc', d['src'], L) if (len(d['words']) > 1 or d['src'].count('\n') > 1) else None)
         ck.traces += 1
         if len(ck.samples) < 6 and L in (3, 8, 12):
             ck.sample({'source': d['src'], 'L': L, 'reflowed': r['y'], 'verdict': v})
